@@ -10,6 +10,7 @@
 #include <cstdio>
 #include <cstdlib>
 #include <cstring>
+#include <csignal>
 #include <fstream>
 #include <map>
 #include <memory>
@@ -40,6 +41,31 @@ static std::string g_simin[8];
 static void cls(const std::string &k) { g_classes[k]++; }
 
 static uint64_t hashMix(uint64_t h, uint64_t v) { h ^= v + 0x9e3779b97f4a7c15ull + (h << 6) + (h >> 2); return h; }
+
+// Crash attribution: a sanitizer report or a fatal signal inside hexsim ends the process before rapidcheck can
+// shrink or report anything, so the case being executed is kept here and written out by the death callback.
+static std::string g_curKind, g_curState, g_curFile, g_curInput, g_curPath;
+static uint64_t g_curMaxSteps = 0;
+static volatile int g_curByte = -1;
+extern "C" void __sanitizer_set_death_callback(void (*callback)(void));
+static std::string hexEncode(const std::string &b) {
+  static const char *d = "0123456789abcdef"; std::string r;
+  for (unsigned char c : b) { r.push_back(d[c >> 4]); r.push_back(d[c & 15]); }
+  return r;
+}
+static void onDeath() {
+  if (!g_failFile || g_curKind.empty() || !g_failJson.empty()) return;
+  FILE *f = fopen(g_failFile, "w");
+  if (!f) return;
+  const char *diff = "hexsim crashed (sanitizer report or fatal signal) while executing this case";
+  if (g_curKind == "grid")
+    fprintf(f, "{\"kind\":\"grid\",\"state\":%s,\"byte\":%d,\"diff\":\"%s\"}\n", g_curState.c_str(), (int)g_curByte, diff);
+  else if (!g_curPath.empty())
+    fprintf(f, "{\"kind\":\"image\",\"file\":\"\",\"path\":\"%s\",\"input\":\"%s\",\"max_steps\":%llu,\"diff\":\"%s\"}\n", g_curPath.c_str(), hexEncode(g_curInput).c_str(), (unsigned long long)g_curMaxSteps, diff);
+  else
+    fprintf(f, "{\"kind\":\"image\",\"file\":\"%s\",\"input\":\"%s\",\"max_steps\":%llu,\"diff\":\"%s\"}\n", hexEncode(g_curFile).c_str(), hexEncode(g_curInput).c_str(), (unsigned long long)g_curMaxSteps, diff);
+  fclose(f);
+}
 
 static void recordFail(const std::string &json) {
   g_failJson = json;
@@ -217,6 +243,7 @@ static std::string runGridState(const State &s, int onlyByte, bool memcmpEachByt
   bool newState = g_distinct.insert(hashMix(hashMix(hashMix(hashMix(hashMix(s.pc, s.areg), s.breg), s.oreg), s.target), s.targetVal ^ ((uint64_t)s.sp << 20))).second;
   for (int inst = 0; inst < 256; inst++) {
     if (onlyByte >= 0 && inst != onlyByte) continue;
+    g_curByte = inst;
     auto pl = isagen::plant(s, (uint8_t)inst, false);
     pr.ref.pc = pl.pc; pr.ref.areg = pl.areg; pr.ref.breg = pl.breg; pr.ref.oreg = pl.oreg;
     pr.ref.status = refisa::Status::RUNNING;
@@ -304,11 +331,14 @@ int main(int argc, char **argv) {
   if (const char *d = getenv("C02_DIR")) { if (chdir(d) != 0) { perror("chdir"); return 2; } }
   setupSimFiles();
   clearSimout();
+  __sanitizer_set_death_callback(onDeath);
+  signal(SIGABRT, [](int) { onDeath(); });   // UBSan's runtime aborts without going through ASan's callback
   bool ok = true;
   if (mode == "grid") {
     ok = rc::check("C02 grid: hexsim step == ISA step for every instruction byte", [&]() {
       State s = *isagen::genState(false);
       g_cases++;
+      g_curKind = "grid"; g_curState = isagen::toJson(s);
       if (g_samples.size() < 4 && g_cases % 40 == 5) g_samples.push_back(isagen::toJson(s));
       int failByte = -1;
       std::string d = runGridState(s, -1, false, &failByte);
@@ -328,6 +358,7 @@ int main(int argc, char **argv) {
       for (int i = 0; i < 4; i++) file.push_back((char)((words >> (8 * i)) & 0xFF));
       file.append(bytes.begin(), bytes.end());
       if (g_samples.size() < 4 && g_cases % 50 == 7) g_samples.push_back(isagen::toJson(q));
+      g_curKind = "image"; g_curFile = file; g_curInput = q.input; g_curMaxSteps = 400;
       uint64_t steps = 0;
       std::string d = runImage(file, q.input, 400, &steps, true);
       if (steps >= 8) { g_nontrivialSeq++; uint64_t h = 0; for (auto c : bytes) h = hashMix(h, c); if (g_distinct.insert(h).second) g_distinctSteps++; }
@@ -343,6 +374,8 @@ int main(int argc, char **argv) {
     uint64_t maxSteps = argc >= 5 ? strtoull(argv[4], nullptr, 10) : 50000000ull;
     uint64_t steps = 0;
     g_cases++;
+    g_curKind = "image"; g_curInput = input; g_curMaxSteps = maxSteps;
+    if (file.size() < 20000) g_curFile = file; else g_curPath = argv[2];
     std::string d = runImage(file, input, maxSteps, &steps, true);
     if (steps >= 8) { g_nontrivialSeq++; uint64_t h = 0; for (auto c : file) h = hashMix(h, (unsigned char)c); if (g_distinct.insert(h).second) g_distinctSteps++; }
     if (!d.empty()) {
@@ -361,6 +394,7 @@ int main(int argc, char **argv) {
     int byte = atoi(argv[16]);
     int failByte = -1;
     g_cases++;
+    g_curKind = "grid"; g_curState = isagen::toJson(s);
     std::string d = runGridState(s, byte, true, &failByte);
     if (!d.empty()) {
       vjson::Obj o; o.str("kind", "grid"); o.raw("state", isagen::toJson(s)); o.snum("byte", failByte); o.str("diff", d);
